@@ -179,14 +179,18 @@ func (l lin3) String() string {
 }
 
 // classifyIndex turns an index LE into a·i + b·n + c [+ d·s]; i = loop induction φ, n = decoded count / list length, s = a φ of two constants (start index).
-func classifyIndex(l LE, sVal int64) (lin3, string, bool) {
+func classifyIndex(l LE, side string) (lin3, string, bool) {
 	out := lin3{c: l.k}
 	for a, k := range l.c {
 		switch {
 		case strings.HasPrefix(a, "Uint64(") || strings.HasPrefix(a, "len(P:list"):
 			out.b += k
 		case startPhiAtoms[a] != nil:
-			out.c += k * sVal
+			sv, known := startPhiAtoms[a][side]
+			if !known {
+				return out, a, false
+			}
+			out.c += k * sv
 		case loopPhiAtoms[a]:
 			out.a += k
 			out.c += k * loopPhiInit[a]
@@ -199,7 +203,9 @@ func classifyIndex(l LE, sVal int64) (lin3, string, bool) {
 
 var loopPhiAtoms = map[string]bool{}
 var loopPhiInit = map[string]int64{}
-var startPhiAtoms = map[string][]int64{}
+
+// startPhiAtoms: a φ of two constants chosen by the "sender == receiver" test: its value on each side
+var startPhiAtoms = map[string]map[string]int64{}
 
 func notePhis(e *Env) {
 	for _, b := range e.Fn.Blocks {
@@ -229,7 +235,28 @@ func notePhis(e *Env) {
 					loopPhiInit[t] = consts[0]
 				}
 			} else if len(consts) == len(ph.Edges) && len(consts) == 2 {
-				startPhiAtoms[t] = consts
+				// which constant belongs to which side: the incoming edge that is taken only when sender == receiver
+				sndRcv := func(f Fact) bool {
+					return !f.Lin && f.Pos && strings.HasPrefix(f.Atom, "eq(") && strings.Contains(f.Atom, "P:sndAddr") && strings.Contains(f.Atom, "P:rcvAddr")
+				}
+				vals := map[string]int64{}
+				for i := range ph.Edges {
+					pb := ph.Block().Preds[i]
+					side := "destination"
+					if _, so := e.CutAt(pb.Instrs[len(pb.Instrs)-1], sndRcv, nil); so {
+						side = "sender"
+					} else {
+						for _, f := range e.EdgeFacts()[edge{pb, ph.Block()}] {
+							if sndRcv(f) {
+								side = "sender"
+							}
+						}
+					}
+					vals[side] = consts[i]
+				}
+				if len(vals) == 2 {
+					startPhiAtoms[t] = vals
+				}
 			}
 		}
 	}
@@ -338,7 +365,7 @@ func ledgerTables(c *Ctx, name string, r Registration) (map[string]roleTable, []
 			if !ok {
 				return
 			}
-			f, atom, ok := classifyIndex(l, 0)
+			f, atom, ok := classifyIndex(l, side)
 			if !ok {
 				problems = append(problems, role+": index "+l.String()+" has an unclassified atom "+atom+" at "+c.P.InstrPos(call))
 				return
@@ -370,7 +397,7 @@ func ledgerTables(c *Ctx, name string, r Registration) (map[string]roleTable, []
 				if m := argIdxRe.FindStringSubmatch(ks.Parts[0]); m != nil {
 					// recover the LE from the rendered index by re-deriving it from the key's append operand
 					if l, ok := keyTokenIndex(s.Env, call.Call.Args[0], 0); ok {
-						if f, atom, ok := classifyIndex(l, 0); ok {
+						if f, atom, ok := classifyIndex(l, side); ok {
 							tabs[side].add("token", f)
 							if name == "ESDTTransfer" {
 								tabs["destination"].add("token", f)
@@ -411,7 +438,7 @@ func ledgerTables(c *Ctx, name string, r Registration) (map[string]roleTable, []
 						if _, _, off, ok := cd.e.sliceBase(s2.X, 0); ok {
 							low = off.plus(low) // a re-slice of a sub-slice of the arguments: absolute position
 						}
-						if f, _, ok := classifyIndex(low, 0); ok {
+						if f, _, ok := classifyIndex(low, side); ok {
 							tabs[side].add("callArgsFrom", f)
 							if name == "ESDTTransfer" {
 								tabs["destination"].add("callArgsFrom", f)
@@ -494,7 +521,7 @@ func parserTables(c *Ctx, fn *ssa.Function) (map[string]roleTable, []string) {
 						}
 						intoCallee := func(call *ssa.Call, i int) bool {
 							sc := call.Call.StaticCallee()
-							if sc == nil || len(sc.Blocks) == 0 || PkgOf(sc) != "parsers" || we.depth >= 4 {
+							if sc == nil || len(sc.Blocks) == 0 || PkgOf(sc) != "parsers" || we.depth >= maxDepth {
 								return false
 							}
 							sub := we.Sub(call, sc)
@@ -559,11 +586,7 @@ func parserTables(c *Ctx, fn *ssa.Function) (map[string]roleTable, []string) {
 						sides = []string{"sender"}
 					}
 					for _, side := range sides {
-						sv := int64(1)
-						if side == "sender" {
-							sv = 2
-						}
-						f, atom, ok := classifyIndex(l, sv)
+						f, atom, ok := classifyIndex(l, side)
 						if !ok {
 							problems = append(problems, role+": parser index "+l.String()+" has an unclassified atom "+atom)
 							continue
@@ -592,11 +615,7 @@ func parserTables(c *Ctx, fn *ssa.Function) (map[string]roleTable, []string) {
 									if senderOnly && side == "destination" {
 										continue
 									}
-									sv := int64(1)
-									if side == "sender" {
-										sv = 2
-									}
-									if f, _, ok := classifyIndex(l, sv); ok {
+									if f, _, ok := classifyIndex(l, side); ok {
 										tabs[side]["number"] = mergeSet(tabs[side]["number"], f)
 									}
 								}
@@ -608,7 +627,7 @@ func parserTables(c *Ctx, fn *ssa.Function) (map[string]roleTable, []string) {
 					}
 					if InvokeName(x) == "Marshalizer.Unmarshal" {
 						if l, ok := argIndexLE(e, x.Call.Args[1]); ok {
-							if f, _, ok := classifyIndex(l, 1); ok {
+							if f, _, ok := classifyIndex(l, "destination"); ok {
 								tabs["destination"].add("value", f)
 							}
 						}
@@ -639,7 +658,7 @@ func mergeSet(m map[string]bool, l lin3) map[string]bool {
 func c10r3(c *Ctx) {
 	const rule = "C10-R3"
 	c.Rule(rule, "parser and ledger agree on minimum counts, stride and the argument position of every role", 12)
-	loopPhiAtoms, startPhiAtoms = map[string]bool{}, map[string][]int64{}
+	loopPhiAtoms, startPhiAtoms = map[string]bool{}, map[string]map[string]int64{}
 	constInt64 := func(pkg, name string) (int64, bool) {
 		k, ok := c.P.Obj(pkg, name).(*types.Const)
 		if !ok {
@@ -834,7 +853,6 @@ func c10r4(c *Ctx) {
 	}
 }
 
-
 // c10r5: the destination side of the two single transfers rejects a message only for its shape (argument count), a failing
 // dependency or the state of the destination — never for the *content* of an argument: the sender side forwards the
 // caller's raw argument bytes, so a content test that the sender side does not make (e.g. "the quantity bytes equal the
@@ -872,7 +890,7 @@ func c10r5(c *Ctx) {
 			return ""
 		}
 		var bad []string
-		nexits := 0
+		nexits, nseen := 0, 0
 		var walk func(e *Env, destOnly bool, depth int)
 		walk = func(e *Env, destOnly bool, depth int) {
 			nilSnd := func(f Fact) bool { return !f.Lin && f.Pos && f.Atom == nilAtom(x.snd) }
@@ -880,14 +898,16 @@ func c10r5(c *Ctx) {
 				if !lastIsError(e.Fn) || isSuccessReturn(ret) && !(len(ret.Results) > 0 && errCallOf(retval(ret, len(ret.Results)-1)) != nil) {
 					continue
 				}
-				if destOnly {
-					if _, onDest := e.CutAt(ret, nilSnd, nil); !onDest {
-						continue
-					}
-				}
 				rv := retval(ret, len(ret.Results)-1)
 				if !definitelyError(rv, ret.Block(), map[ssa.Value]bool{}) {
 					continue
+				}
+				nseen++
+				if destOnly {
+					// an exit that the sender side passes as well is no concern: the sender shard refuses before it debits
+					if _, onDest := e.CutAt(ret, nilSnd, nil); !onDest {
+						continue
+					}
 				}
 				nexits++
 				// propagated from a module helper that is handed argument content: look inside
@@ -910,12 +930,12 @@ func c10r5(c *Ctx) {
 		}
 		walk(c.P.Env(r.Entry), true, 0)
 		construct := name + ": destination-side rejections"
-		if nexits == 0 {
-			c.Fail(rule, "anchor", FuncName(r.Entry), construct, c.P.Pos(r.Entry.Pos()), "no error exit found on the destination side")
+		if nseen == 0 {
+			c.Fail(rule, "anchor", FuncName(r.Entry), construct, c.P.Pos(r.Entry.Pos()), "no error exit found")
 			continue
 		}
 		if len(bad) == 0 {
-			c.OK(rule, FuncName(r.Entry), construct, c.P.Pos(r.Entry.Pos()), fmt.Sprintf("%d error exits; none is decided by argument content", nexits))
+			c.OK(rule, FuncName(r.Entry), construct, c.P.Pos(r.Entry.Pos()), fmt.Sprintf("%d error exits, %d of them only on the destination side; none of those is decided by argument content", nseen, nexits))
 		} else {
 			c.FailX(Oblig{Rule: rule, Func: FuncName(r.Entry), Construct: construct, Pos: c.P.Pos(r.Entry.Pos()), Kind: "violation",
 				Detail:   "the destination side can refuse a message because of the bytes of an argument that the sender side forwards as given: " + strings.Join(uniq(bad), " ; ") + ". The sender shard has already debited the tokens; the continuation is rejected by the function of the same name",
